@@ -362,3 +362,45 @@ func c06EmptyMatches(c *mon.Child) {
 		}
 	}
 }
+
+// c06HereG: a grammar over the heredoc lexer (back-references; the Bare rule enters the
+// heredoc state without the group \1 needs, so the expansion fails every time it is reached).
+// c06One sends each input through ParseString, ParseBytes and Parse on one parser.
+type c06HereG struct {
+	Items []string `( @Heredoc | @Bare | @Ident | @End | @Line )*`
+}
+
+func c06Heredocs(c *mon.Child) {
+	def, err := lexer.New(heredocRules())
+	if err != nil {
+		return
+	}
+	p, err := participle.Build[c06HereG](participle.Lexer(def), participle.Elide("WS"))
+	if err != nil {
+		c.Violation("", "heredoc", "heredoc grammar does not build: "+err.Error(), nil)
+		return
+	}
+	r := c.RNG("heredoc")
+	for i := 0; i < c.N(300, 3000); i++ {
+		key := fmt.Sprintf("here%d", i)
+		if !c.Want(key) {
+			continue
+		}
+		in := heredocInput(r)
+		switch i % 4 {
+		case 1:
+			in += "x <<<\nbody\n"
+		case 2:
+			in = "<<<\nEOF\n" + in
+		case 3:
+			in += "<<E\xffOF\nbody\nE\xffOF\n"
+		}
+		c.Begin(key, fmt.Sprintf("heredoc grammar <- %q", in))
+		c06One(c, key, gram.WrapParser(p), "grammar over a back-reference (heredoc) lexer", in, "h.txt", false, func() interface{} { return map[string]interface{}{"input": in} })
+		if i%4 != 0 {
+			c.Nontrivial("here:" + in)
+			c.Feature("heredoc_inputs_with_a_failing_back_reference_expansion")
+		}
+		c.End(key)
+	}
+}
